@@ -56,9 +56,22 @@ type chunkTransport struct {
 	chunks [][]byte
 	status int
 	crange string
+	// adaptive: answer 206 with the full Content-Range when the request carries a Range header, 200 otherwise
+	adaptive bool
 }
 
 func (t *chunkTransport) RoundTrip(req *http.Request) (*http.Response, error) {
+	if t.adaptive {
+		// whichever way the client asks for the whole blob, it gets the whole blob
+		t.status, t.crange = 200, ""
+		if req.Header.Get("Range") != "" {
+			t.status = 206
+			t.crange = fmt.Sprintf("bytes 0-%d/%d", t.size-1, t.size)
+			if t.size == 0 {
+				t.crange = "bytes */0"
+			}
+		}
+	}
 	h := http.Header{}
 	h.Set("Docker-Content-Digest", t.digest)
 	h.Set("Content-Type", "application/octet-stream")
@@ -91,6 +104,9 @@ func (*c01b) Impl(c Case) []string {
 			var rd ociregistry.BlobReader
 			if t[1] == "1" {
 				rd, err = cl.GetBlob(context.Background(), "foo", ociregistry.Digest(dg))
+			} else if t[1] == "2" {
+				tr.adaptive = true
+				rd, err = cl.GetBlobRange(context.Background(), "foo", ociregistry.Digest(dg), 0, -1)
 			} else {
 				tr.status = 206
 				tr.crange = fmt.Sprintf("bytes 1-%d/%d", size, size) // the reader's size comes from Content-Range's total
@@ -160,6 +176,8 @@ func (*c01b) Gen(rng *RNG, tier string) []Case {
 		line := fmt.Sprintf("rd %d %d %s", rng.Intn(4)/3^1, size, tok(dg))
 		if rng.Chance(1, 4) {
 			line = fmt.Sprintf("rd 0 %d %s", size, tok(dg))
+		} else if rng.Chance(1, 3) {
+			line = fmt.Sprintf("rd 2 %d %s", size, tok(dg)) // the whole blob through the range call
 		} else {
 			line = fmt.Sprintf("rd 1 %d %s", size, tok(dg))
 		}
@@ -193,7 +211,7 @@ func (*c01b) Oracle(c Case, impl []string) []Failure {
 		switch {
 		case got == "panic":
 			fail("reader-panic", "an error or a clean end")
-		case t[1] == "1" && !matches && strings.HasPrefix(got, "eof"):
+		case (t[1] == "1" || t[1] == "2") && !matches && strings.HasPrefix(got, "eof"):
 			cl := "reader-clean-eof-on-mismatch"
 			switch {
 			case int64(len(body)) < size:
@@ -204,7 +222,7 @@ func (*c01b) Oracle(c Case, impl []string) []Failure {
 				cl += ":bytes"
 			}
 			fail(cl, "err (content does not match its descriptor)")
-		case t[1] == "1" && matches && got != "eof "+tok(string(body)):
+		case (t[1] == "1" || t[1] == "2") && matches && got != "eof "+tok(string(body)):
 			fail("reader-rejects-matching", "eof with exactly the body")
 		case t[1] == "0" && int64(len(body)) > size && strings.HasPrefix(got, "eof"):
 			fail("reader-clean-eof-on-mismatch:long-unverified", "err (body longer than the descriptor size)")
